@@ -127,6 +127,9 @@ class SdkRun:
         k = s["s"]
         if k == "array":
             return [self.new_array(s["h"], s["len"], s.get("init"))]
+        if k == "hold":
+            self.regfs[s["h"]] = self.conn.builder.new_register(s["v"])
+            return [{"s": "hold", "h": self.hid(s["h"]), "v": s["v"]}]
         if k == "qubit":
             q = Qubit(self.conn)
             self.qubits[s["h"]] = q
